@@ -3,7 +3,9 @@
    a change of a constant, of the comparison in decref, of the count sent by the finalizer or of what
    _cleanup clears makes this file stop compiling.  The three close-path facts (does _async_request refuse
    before boxing on a closed channel / can on_disconnect skip the clear / is _cleanup called in close()'s finally)
-   may be true or false: the theorems are proved for both values and guarded by them. *)
+   and the two facts about failures (is what _box registered given back when the message is not sent / does the reply
+   path refuse before boxing once the channel is closed) may be true or false: the theorems are proved for both values
+   and guarded by them. *)
 From V Require Import lib.Base model.Refcount gen.Gen_colls.
 Open Scope Z_scope.
 
@@ -23,5 +25,7 @@ Lemma tie_last_traceback : Gen_colls.keeps_last_traceback = true.
 Proof. reflexivity. Qed.
 
 (* the parameters of the current tree are the ones of the proofs, instantiated with the tree's close-path facts *)
-Lemma tie_params : Gen_colls.params = stdp Gen_colls.send_checks_closed Gen_colls.cleanup_guarded Gen_colls.close_finally.
+Lemma tie_params : Gen_colls.params =
+  stdp Gen_colls.send_checks_closed Gen_colls.cleanup_guarded Gen_colls.close_finally
+       Gen_colls.failed_send_releases Gen_colls.reply_checks_closed.
 Proof. reflexivity. Qed.
